@@ -10,7 +10,8 @@
 //                                            assigns:[names], parseError}]}}]}
 //
 // Module instances must be fresh per sequence: every sequence is loaded from
-// its own copy of the directory (the ESM registry is keyed by URL).
+// its own copy of the directory (the ESM registry is keyed by URL), or, under
+// --preserve-symlinks, through its own symbolic link to the directory.
 // Module bodies report through globalThis.__probe(module, effect) and register
 // the promises of their dynamic imports with globalThis.__track(module, promise).
 // Run with: node --expose-internals run_chunks.js
@@ -21,6 +22,9 @@ const { pathToFileURL } = require('url')
 
 let acorn = null
 try { acorn = require('internal/deps/acorn/acorn/dist/acorn') } catch (e) { acorn = null }
+
+// with --preserve-symlinks the ESM loader does not resolve symbolic links, so a link per sequence gives fresh instances
+const PRESERVE = process.execArgv.includes('--preserve-symlinks')
 
 let current = null // the run that receives probes and errors
 process.on('unhandledRejection', (e) => {
@@ -70,9 +74,14 @@ async function settle(run) {
 
 async function runSequence(job, seq, k) {
   let dir = job.dir
+  let linked = false
   if (!job.nocopy) {
     dir = job.dir + '.seq' + k
-    fs.cpSync(job.dir, dir, { recursive: true })
+    if (PRESERVE) {
+      // a symbolic link to the directory is as good as a copy when the loader keys modules by the unresolved path
+      try { fs.symlinkSync(job.dir, dir); linked = true } catch (e) { linked = false }
+    }
+    if (!linked) fs.cpSync(job.dir, dir, { recursive: true })
   }
   const run = { seq, trace: [], errors: [], tracked: [], after: [], poked: [] }
   current = run
@@ -104,7 +113,9 @@ async function runSequence(job, seq, k) {
   await settle(run)
   current = null
   delete run.tracked
-  if (!job.nocopy) { try { fs.rmSync(dir, { recursive: true, force: true }) } catch (e) { } }
+  if (!job.nocopy) {
+    try { if (linked) fs.unlinkSync(dir); else fs.rmSync(dir, { recursive: true, force: true }) } catch (e) { }
+  }
   return run
 }
 
